@@ -177,7 +177,7 @@ class NumericOperator(CommonOperator):
     Used for port, length, DSCP comparisons. Supports <, >, =, !=, <=, >=.
     """
 
-    # reserved= 0x08  # 0b00001000
+    RESERVED: ClassVar[int] = 0x08  # 0b00001000
     LT: ClassVar[int] = 0x04  # 0b00000100
     GT: ClassVar[int] = 0x02  # 0b00000010
     EQ: ClassVar[int] = 0x01  # 0b00000001
@@ -192,7 +192,7 @@ class BinaryOperator(CommonOperator):
     Used for TCP flags and fragment flags. Supports include, match, not.
     """
 
-    # reserved= 0x0C  # 0b00001100
+    RESERVED: ClassVar[int] = 0x0C  # 0b00001100
     INCLUDE: ClassVar[int] = 0x00  # 0b00000000
     NOT: ClassVar[int] = 0x02  # 0b00000010
     MATCH: ClassVar[int] = 0x01  # 0b00000001
@@ -971,13 +971,18 @@ class Flow(NLRI):
 
         Returns what is left of the payload.
         """
+        # RFC 8955 sections 4.2.1.1 and 4.2.1.2: the reserved bits of an operator must be ignored
+        # on decoding, and so must the AND bit of the first operator of a component
+        ignored: int = BinaryOperator.RESERVED if issubclass(klass, BinaryString) else NumericOperator.RESERVED
+        ignored |= CommonOperator.AND
         end: int = 0
         while not end:
             if not bgp:
                 raise Notify(3, 10, 'flow component %d ends without its end of list operator' % what)
             byte, bgp = bgp[0], bgp[1:]
             end = CommonOperator.eol(byte)
-            operator = CommonOperator.operator(byte)
+            operator = CommonOperator.operator(byte) & ~ignored
+            ignored &= ~CommonOperator.AND
             length = CommonOperator.length(byte)
             # RFC 8955 section 4.2.1.1: the operator's length field says how many bytes the
             # value takes, and a sender may use any of the four. VALUE_SIZES says what this
